@@ -12,7 +12,8 @@ RULE = (
     "lower and upper limits are taken from {0} and +-(2^k + d), k in {7, 8, 15, 16, 31, 32, 63}, d in {-1, 0, 1} (all "
     "ordered pairs lower <= upper, ~950 ranges), in CIDs of 6 columns; (2) generated CIDs with field names drawn from each "
     "dialect's keyword list in three casings and near-misses, Decimal rules with 0-6 fraction digits, length declarations on "
-    "text-like fields, empty flags, Integer fields with rule / with length only / with neither. The CREATE TABLE text is "
+    "text-like fields, empty flags, Integer fields with rule / with length only / with neither; for a quarter of them also sql.write_create() (the command "
+    "line's --create) on the CID stored as CSV, ODS and Excel. The CREATE TABLE text is "
     "parsed back into columns and compared with M-ddl: one column per field in order; quoted iff the name is a keyword of "
     "the dialect (plus an anchor list that must stay quoted everywhere and reserved words of single dialects taken from the vendors' lists); NOT NULL iff not allowed to be empty; Integer column "
     "type's interval contains both limits; Decimal (total, fraction) digits; text length = upper length limit. A case is "
@@ -211,6 +212,53 @@ def check_cid(ctx, fields, dialect_names=None):
                     ctx.violation("C19:text-length", case, "text column length is not the upper length limit", expected=want, observed=text)
 
 
+def check_write_create(ctx, fields, index):
+    """sql.write_create(path, Cid()) - what 'cutplace --create' calls - for the CID stored as CSV, ODS or Excel: the
+    statement written next to the CID has to be the one SqlFactory gives for the same CID loaded from rows."""
+    import os
+
+    from cutplace import errors, interface, sql
+
+    from cpverif import storage
+
+    rows = [["D", "Format", "Delimited"]]
+    for f in fields:
+        rows.append(["F", f["name"], "", "X" if f["empty"] else "", f["length"], f["type"], f["rule"]])
+    reference = interface.Cid()
+    try:
+        reference.read("<c19>", rows)
+    except errors.InterfaceError:
+        return
+    how = ["csv", "ods", "xlsx"][index % 3]
+    path = os.path.join(ctx.tmp, "some_table.%s" % how)
+    if how == "csv":
+        with open(path, "w", encoding="utf-8", newline="") as f:
+            f.write(storage.delimited_text(rows))
+    elif how == "ods":
+        storage.write_ods(path, [rows], ("s", "colruns"))
+    else:
+        storage.write_xlsx(path, [rows])
+    case = {"fields": fields, "cid_stored_as": how, "api": "sql.write_create"}
+    ctx.case(case, True)
+    ctx.count("write_create.%s" % how)
+    created = os.path.join(ctx.tmp, "some_table_create.sql")
+    try:
+        sql.write_create(path, interface.Cid())
+        with open(created, encoding="utf-8") as f:
+            text = f.read()
+    except Exception as error:
+        mod, fn = core.innermost_cutplace_frame(error)
+        ctx.violation("C19:write-create-failed:%s:%s@%s.%s" % (how, type(error).__name__, mod, fn), case, "no CREATE TABLE statement for a CID stored as %s" % how, observed=error)
+        return
+    finally:
+        for p in (path, created):
+            if os.path.exists(p):
+                os.remove(p)
+    want = sql.SqlFactory(reference, "some_table").create_table_statement()
+    if text != want:
+        ctx.violation("C19:write-create-differs:%s" % how, case, "the statement written for the stored CID differs from the one for the same CID loaded from rows", expected=want, observed=text)
+
+
 def usable_name(name):
     return re.match(r"^[A-Za-z][A-Za-z0-9_]*$", name) is not None and not keyword.iskeyword(name)
 
@@ -319,6 +367,8 @@ def run(ctx):
                     f["rule"] = "a.*"
             fields.append(f)
         check_cid(ctx, fields)
+        if i % 4 == 0:
+            check_write_create(ctx, fields, i // 4)
 
 
 def replay(ctx, case):
